@@ -862,3 +862,65 @@ class ProbeRunner(FullRunner):
 
 class ValueRunner(FullRunner):
     valcheck = True
+
+
+# ---- C20: system lifecycle (registration, single initialisation, look-up) ----------------------
+from simprocesd.model.factory_floor.asset import Asset as _Asset  # noqa: E402
+
+_orig_asset_initialize = _Asset.initialize
+
+
+def _asset_initialize(self, env):
+    r = impl.CTX
+    if r is not None and hasattr(r, 'init_counts'):
+        r.init_counts[id(self)] = r.init_counts.get(id(self), 0) + 1
+    return _orig_asset_initialize(self, env)
+
+
+_Asset.initialize = _asset_initialize
+
+
+class SysRunner(FullRunner):
+    CLS = {'handler': PartHandler, 'processor': PartProcessor, 'sink': Sink, 'buffer': Buffer, 'source': Source,
+           'maint': Maintainer}
+
+    def reset(self):
+        super().reset()
+        System._instance = None
+        self.systems = []
+        self.sassets = []
+        self.init_counts = {}
+
+    def handle_ext(self, toks):
+        if toks[0] != 'S':
+            return super().handle_ext(toks)
+        op = toks[1]
+        try:
+            if op == 'new':
+                self.systems.append(System())
+                self.out.append('sres ok')
+            elif op == 'asset':
+                cls = self.CLS[toks[2]]
+                a = cls(name=f'A{toks[3]}')
+                self.sassets.append(a)
+                self.out.append('sres ok')
+            elif op == 'simulate':
+                self.systems[int(toks[2])].simulate(0, print_summary=False)
+                self.out.append('sres ok')
+            elif op == 'find':
+                sysm = self.systems[int(toks[2])]
+                kw = {}
+                if toks[3] != '-':
+                    kw['name'] = f'A{toks[3]}'
+                if toks[4] != '-':
+                    kw['id_'] = self.sassets[int(toks[4])].id if int(toks[4]) < len(self.sassets) else -12345
+                if toks[5] != '-':
+                    kw['type_'] = self.CLS[toks[5]]
+                if toks[6] != '-':
+                    kw['subtype'] = self.CLS[toks[6]]
+                found = sysm.find_assets(**kw)
+                self.out.append('sres found ' + jn(';', (str(self.sassets.index(x)) for x in found)))
+            elif op == 'counts':
+                self.out.append('scount ' + jn(';', (str(self.init_counts.get(id(a), 0)) for a in self.sassets)))
+        except Exception as e:
+            self.out.append(f'sres err {type(e).__name__}')
